@@ -229,6 +229,8 @@ def run(case, ctx):
     members = {ids[k]: m for k, m in members.items()}
     if given:
         ens = ctx.call("C12:ctor", (StreamingEnsemble if stream else BatchEnsemble), members, _make_election(case["election"]), given)
+        given.clear()       # the caller re-uses the dict it passed for something else: the ensemble must have taken what it needs
+        members = None
     else:   # no member needs a selector: the ensemble is built the short way
         ens = ctx.call("C12:ctor", (StreamingEnsemble if stream else BatchEnsemble), members, _make_election(case["election"]))
         ctx.probe("ensemble_built_without_selectors")
